@@ -408,6 +408,21 @@ FEATURES = [
     F('error code in error bodies', 23,
       lambda v: ('GET', '/resource_providers/' + gen.GHOST_RP, None),
       lambda r: 'code' in r.json['errors'][0]),
+    F('specific error code: 409 duplicate provider name', 23,
+      lambda v: ('POST', '/resource_providers',
+                 {'name': 'p1', 'uuid': gen.PROV[6]}),
+      lambda r: r.status == 409 and 'code' in r.json['errors'][0]),
+    F('specific error code: 409 generation conflict', 23,
+      lambda v: ('PUT', '/resource_providers/%s/inventories' % P1,
+                 {'resource_provider_generation': 999, 'inventories': {}}),
+      lambda r: r.status == 409 and 'code' in r.json['errors'][0]),
+    F('specific error code: 409 provider has children', 23,
+      lambda v: ('DELETE', '/resource_providers/' + P1, None),
+      lambda r: r.status == 409 and 'code' in r.json['errors'][0]),
+    F('specific error code: 409 inventory in use', 23,
+      lambda v: ('DELETE', '/resource_providers/%s/inventories/VCPU' % P1,
+                 None),
+      lambda r: r.status == 409 and 'code' in r.json['errors'][0]),
     F('repeated member_of', 24,
       lambda v: ('GET', '/resource_providers?member_of=%s&member_of=in:%s,%s'
                  % (AGG, AGG, gen.AGGS[1]), None), st(200), base=3),
@@ -498,6 +513,22 @@ FEATURES = [
                  % (SSD, AVX), None),
       lambda r: r.status == 200 and r.json['resource_providers'] == [],
       base=18),
+    F('required=in: on candidates', 39,
+      lambda v: cand(v, '&required=in:%s,%s' % (AVX, SSD)), st(200),
+      base=17),
+    F('repeated required on candidates is ANDed', 39,
+      lambda v: cand(v, '&required=%s&required=%s' % (SSD, AVX)),
+      lambda r: r.status == 200 and r.json['allocation_requests'] == [],
+      base=17),
+    F('repeated requiredN on candidates is ANDed', 39,
+      lambda v: ('GET', '/allocation_candidates?resources1=VCPU:1'
+                 '&required1=%s&required1=%s' % (SSD, AVX), None),
+      lambda r: r.status == 200 and r.json['allocation_requests'] == [],
+      base=25),
+    F('required1=in: on candidates', 39,
+      lambda v: ('GET', '/allocation_candidates?resources1=VCPU:1'
+                 '&required1=in:%s,%s' % (AVX, SSD), None), st(200),
+      base=25),
 ]
 
 
